@@ -667,3 +667,57 @@ Proof.
   intros n1 n2 s H. rewrite (reload_persist n1 n2 s H). unfold normalize, keys_unique. simpl. split; [reflexivity|].
   apply NoDup_map_filter.
 Qed.
+
+(* ================================================================== 5. the round trip as one equation over the whole state *)
+(* a state is canonical for the wall clock [now] when it has none of the three things a save/load cycle rewrites: a data
+   value that is the JSON literal null (the recorded finding data-json-null), a task whose waited status is still Default,
+   a warning or notice that has expired *)
+Definition canonical (now : Z) (s : state) : Prop :=
+  state_no_null s /\ Forall (fun t => t_waited t <> st_default) (s_tasks s) /\
+  Forall (fun w => warning_expired now w = false) (s_warnings s) /\ Forall (fun n => notice_expired now n = false) (s_notices s).
+
+Lemma filter_all : forall A (p : A -> bool) l, Forall (fun x => p x = true) l -> filter p l = l.
+Proof. intros A p l H. induction H as [|x l Hx Hl IH]; simpl; [reflexivity | rewrite Hx, IH; reflexivity]. Qed.
+
+Lemma map_id_in : forall A (f : A -> A) l, (forall x, In x l -> f x = x) -> map f l = l.
+Proof. intros A f l H. rewrite <- (map_id l) at 2. apply map_ext_in. assumption. Qed.
+
+(* load (save s) = s, every persisted field of every change, task, warning and notice, the data and the counters *)
+Theorem roundtrip_exact : forall n1 n2 s, (n1 <= n2)%Z -> canonical n2 s -> reload n2 (persist n1 s) = s.
+Proof.
+  intros n1 n2 s Hle ((D & DC & DT) & W & EW & EN). rewrite (reload_persist n1 n2 s Hle). unfold normalize.
+  destruct s as [data chs tks ws ns lc lt ll ln lnts]. simpl in *. f_equal.
+  - apply decode_no_null. assumption.
+  - apply map_id_in. intros c Hc. rewrite Forall_forall in DC. specialize (DC c Hc). unfold normalize_change.
+    rewrite (decode_no_null _ DC). destruct c; reflexivity.
+  - apply map_id_in. intros t Ht. rewrite Forall_forall in DT, W. specialize (DT t Ht). specialize (W t Ht).
+    unfold normalize_task, norm_waited. simpl. rewrite (decode_no_null _ DT).
+    destruct (t_waited t =? st_default) eqn:E; [apply N.eqb_eq in E; contradiction|]. destruct t; reflexivity.
+  - apply filter_all. eapply Forall_impl; [|exact EW]. simpl. intros w Hw. rewrite Hw. reflexivity.
+  - apply filter_all. eapply Forall_impl; [|exact EN]. simpl. intros n Hn. rewrite Hn. reflexivity.
+Qed.
+
+Lemma decode_data_no_null : forall d, no_null (decode_data d).
+Proof. intros d e He. unfold decode_data in He. apply filter_In in He. destruct He as [_ He]. apply negb_true_iff in He. exact He. Qed.
+
+(* ... and every state that comes out of a load is canonical: from the first reload on, save/load is the identity *)
+Theorem reload_canonical : forall n1 n2 s, (n1 <= n2)%Z -> canonical n2 (reload n2 (persist n1 s)).
+Proof.
+  intros n1 n2 s Hle. rewrite (reload_persist n1 n2 s Hle). unfold normalize, canonical, state_no_null. simpl. repeat split.
+  - apply decode_data_no_null.
+  - rewrite Forall_map. apply Forall_forall. intros c _. simpl. apply decode_data_no_null.
+  - rewrite Forall_map. apply Forall_forall. intros t _. simpl. apply decode_data_no_null.
+  - rewrite Forall_map. apply Forall_forall. intros t _. simpl. unfold norm_waited, st_default, st_done.
+    destruct (t_waited t =? 0) eqn:E; [discriminate | apply N.eqb_neq; assumption].
+  - apply Forall_forall. intros w Hw. apply filter_In in Hw. destruct Hw as [_ Hw]. apply negb_true_iff in Hw. exact Hw.
+  - apply Forall_forall. intros n Hn. apply filter_In in Hn. destruct Hn as [_ Hn]. apply negb_true_iff in Hn. exact Hn.
+Qed.
+
+Corollary reload_fixed_point : forall n1 n2 n3 n4 s, (n1 <= n2)%Z -> (n2 <= n3)%Z -> (n3 <= n4)%Z ->
+  Forall (fun w => warning_expired n4 w = false) (s_warnings (reload n2 (persist n1 s))) ->
+  Forall (fun n => notice_expired n4 n = false) (s_notices (reload n2 (persist n1 s))) ->
+  reload n4 (persist n3 (reload n2 (persist n1 s))) = reload n2 (persist n1 s).
+Proof.
+  intros n1 n2 n3 n4 s H12 H23 H34 HW HN. apply roundtrip_exact; [assumption|].
+  destruct (reload_canonical n1 n2 s H12) as (A & B & _ & _). repeat split; try apply A; assumption.
+Qed.
